@@ -45,6 +45,8 @@ REQUIRED = ['second_check_on_same_request', 'ref_selfcheck_ok', 'direct_accept_d
             'session_data_returned_to_owner', 'session_stolen_sid_other_ip', 'session_stolen_sid_other_agent', 'session_forged_sid',
             'session_fresh_ids_issued', 'session_e2e_steps',
             'vhost_forwarded_host_honoured_for_gateway', 'vhost_untrusted_remote_sends_forwarded_host', 'vhost_e2e_cases',
+            'authcomp_cases', 'authcomp_two_instances_in_one_process', 'authcomp_stock_admin_account_tried_against_a_passwd_file',
+            'authcomp_credentials_of_another_instance_tried', 'authcomp_valid_credentials_let_through',
             'vhost_wsgi_cases', 'vhost_untrusted_remote_claims_gateway_address', 'session_wsgi_steps', 'session_request_claims_another_address']
 REQUIRED_OBLIGATIONS = ['AUTH_ONLY_IF', 'AUTH_IF', 'SESSION_BINDING', 'SESSION_FRESH_ID', 'GATEWAY_ONLY_IF']
 WORKER_TIMEOUT = {'quick': 300, 'thorough': 1500}
@@ -850,6 +852,125 @@ def run_vhost(case, force_attr=False):
 
 
 # =================================================================================================
+# the packaged Authentication component (circuits.web.main, the --passwd mode of the stock server)
+# =================================================================================================
+def run_authcomp(case):
+    """One Authentication component per passwd file (each under its own root, all in this process); the table configured for an instance
+    is exactly its file: 'user:md5hex(password)' lines.  A probe below the component shows which requests were let through."""
+    import os
+    import tempfile
+
+    from circuits import BaseComponent, handler
+    from circuits.web.events import request as request_event
+    from circuits.web.headers import Headers
+    from circuits.web.main import Authentication
+    from circuits.web.wrappers import Request, Response
+    from vlib.inject import FakeSock, Wire
+    problems, oks, marks = [], {'AUTH_ONLY_IF': 0, 'AUTH_IF': 0}, {'authcomp_cases'}
+    realm = case.get('realm', 'Secure Area')
+    worlds, paths = [], []
+    try:
+        for table in case['files']:
+            fd, path = tempfile.mkstemp(prefix='vc20-passwd-', dir='/var/tmp')
+            with os.fdopen(fd, 'w') as f:
+                f.write('\n'.join('%s:%s' % (u, md5hex(pw)) for u, pw in table.items()))
+            paths.append(path)
+            w = Wire()
+            reached = []
+
+            class Probe(BaseComponent):
+                channel = 'web'
+
+                @handler('request', priority=0)
+                def _v_req(self, event, req, res, _r=reached):
+                    _r.append(req.login)
+                    return 'LET THROUGH'
+            Authentication(realm=realm, passwd=path).register(w)
+            Probe().register(w)
+            w.settle()
+            worlds.append((w, reached))
+        if len(worlds) >= 2:
+            marks.add('authcomp_two_instances_in_one_process')
+        for r in case['requests']:
+            w, reached = worlds[r['instance']]
+            table = case['files'][r['instance']]
+            if r['scheme'] == 'basic':
+                text = header_text(B(r['user'], r['password']))
+            else:
+                # the stored value (md5 hex of the password) is the secret of the digest computation, as the component hands it to check_auth
+                text = header_text(D(r['user'], md5hex(r['password']), realm=realm, uri='/secret', qop=r.get('qop', 'auth')))
+            sock = FakeSock()
+            try:
+                hs = Headers([('Host', 'test.example'), ('Authorization', text)])
+                req = Request(sock, 'GET', 'http', '/secret', (1, 1), '', hs, server=w)
+                n0 = len(reached)
+                w.inject(request_event(req, Response(req)))
+                through = len(reached) > n0
+            finally:
+                sock.close()
+            valid = r['user'] in table and table[r['user']] == r['password']
+            ctx = {'instance': r['instance'], 'configured_users': sorted(table), 'scheme': r['scheme'], 'user': r['user'], 'password': r['password'],
+                   'let_through': through}
+            if not valid:
+                if r['user'] == 'admin' and r['password'] == 'admin':
+                    marks.add('authcomp_stock_admin_account_tried_against_a_passwd_file')
+                if any(r['user'] in t and t[r['user']] == r['password'] for t in case['files']):
+                    marks.add('authcomp_credentials_of_another_instance_tried')
+                if through:
+                    problems.append(('AUTH_ONLY_IF', dict(ctx, note='let through although the credentials match no entry of the table configured for this instance'),
+                                     'authcomp:' + r['scheme']))
+                else:
+                    oks['AUTH_ONLY_IF'] += 1
+            else:
+                if through:
+                    marks.add('authcomp_valid_credentials_let_through')
+                    oks['AUTH_IF'] += 1
+                else:
+                    problems.append(('AUTH_IF', dict(ctx, note='valid credentials of a configured user refused'), 'authcomp:' + r['scheme']))
+    finally:
+        for pth in paths:
+            try:
+                os.unlink(pth)
+            except OSError:
+                pass
+    return problems, {k: v for k, v in oks.items() if v}, marks, True
+
+
+def authcomp_corpus():
+    A, Bt = {'bob': 'builder', 'eve': 's3cret'}, {'carol': 'singer'}
+    reqs = []
+    for inst, (own, other) in enumerate(((A, Bt), (Bt, A))):
+        for scheme in ('basic', 'digest'):
+            for u, pw in own.items():
+                reqs.append({'instance': inst, 'scheme': scheme, 'user': u, 'password': pw})
+                reqs.append({'instance': inst, 'scheme': scheme, 'user': u, 'password': pw + 'x'})
+            for u, pw in other.items():
+                reqs.append({'instance': inst, 'scheme': scheme, 'user': u, 'password': pw})
+            reqs.append({'instance': inst, 'scheme': scheme, 'user': 'admin', 'password': 'admin'})
+            reqs.append({'instance': inst, 'scheme': scheme, 'user': 'mallory', 'password': 'None'})
+    out = [{'kind': 'authcomp', 'files': [A, Bt], 'requests': reqs},
+           {'kind': 'authcomp', 'files': [A], 'requests': [r for r in reqs if r['instance'] == 0]},
+           {'kind': 'authcomp', 'files': [{'admin': 'changed'}], 'realm': 'Other Realm',
+            'requests': [{'instance': 0, 'scheme': sc, 'user': 'admin', 'password': pw} for sc in ('basic', 'digest') for pw in ('admin', 'changed')]}]
+    return out
+
+
+def gen_authcomp(rng):
+    names = ['bob', 'carol', 'eve', 'admin', 'root', 'x']
+    files = []
+    for _ in range(rng.choice([1, 2, 2, 3])):
+        files.append({u: rng.choice(['pw', 'admin', 'builder', 's3cret', 'None']) for u in rng.sample(names, rng.randint(1, 3))})
+    reqs = []
+    for _ in range(rng.randint(3, 10)):
+        i = rng.randrange(len(files))
+        src = rng.choice(files)
+        u = rng.choice(sorted(src) + ['admin', 'mallory'])
+        pw = src.get(u, 'admin') if rng.random() < 0.7 else rng.choice(['admin', 'pw', 'wrong'])
+        reqs.append({'instance': i, 'scheme': rng.choice(['basic', 'digest']), 'user': u, 'password': pw})
+    return {'kind': 'authcomp', 'files': files, 'requests': reqs}
+
+
+# =================================================================================================
 # evaluation
 # =================================================================================================
 class Inconclusive(Exception):
@@ -863,6 +984,8 @@ def run_case(case, **kw):
         return run_session(case)
     if case['kind'] == 'vhost':
         return run_vhost(case, **kw)
+    if case['kind'] == 'authcomp':
+        return run_authcomp(case)
     raise ValueError(case['kind'])
 
 
@@ -1114,7 +1237,7 @@ def vhost_corpus():
 
 
 def corpus():
-    return auth_corpus() + session_corpus() + vhost_corpus()
+    return auth_corpus() + session_corpus() + vhost_corpus() + authcomp_corpus()
 
 
 # =================================================================================================
@@ -1288,8 +1411,10 @@ def gen_case(rng):
     r = rng.random()
     if r < 0.7:
         return gen_auth(rng)
-    if r < 0.85:
+    if r < 0.82:
         return gen_session(rng)
+    if r < 0.86:
+        return gen_authcomp(rng)
     return gen_vhost(rng)
 
 
